@@ -15,13 +15,21 @@ def stream_of(ty):
     return None
 
 
+class _Reach(set):
+    """A set of reached nodes that also remembers the path states in which each node was reached."""
+
+    def __init__(self, states):
+        super().__init__(states.keys())
+        self.states = states
+
+
 class CliView:
     def __init__(self, facts):
         self.facts = facts
         self.bin = facts.bin
         self.main = common.bin_main(facts)
         self.sup = Super(self.bin, self.main, depth=5)
-        self.ps = PathSens(self.sup)
+        self.ps = PathSens(self.sup, payloads=True)
         self.nodes = self.sup.nodes()
         self.calls = self.sup.calls()
         self.translate = []
@@ -77,7 +85,36 @@ class CliView:
         r = self.sup.reachable_from(list(starts))
         return r, [n for n in r if not self.sup.edges(n)]
 
-    def is_exit(self, node, code=None):
+    def exit_codes(self, node, states=None):
+        """Set of exit codes process::exit can be called with at `node`: the constant argument, or the
+        constants the argument is known to hold in the given (default: all reaching) path states; None in the
+        set means 'not a known constant'."""
+        for n, c in self.exits:
+            if n == node and c is not None:
+                return {c}
+        b = self.sup.body_of(node)
+        t = b.blocks[node[1]]["term"]
+        if not t["args"]:
+            return {None}
+        out = set()
+        sts = states if states is not None else self._states().get(node, [])
+        for st in sts:
+            f_end = dict(st)
+            for s_ in b.blocks[node[1]]["stmts"]:
+                self.ps._stmt(f_end, node[0], s_)
+            f = self.ps._operand_fact(f_end, node[0], t["args"][0])[0]
+            out.add(f[1] if f and f[0] == "const" else None)
+        return out or {None}
+
+    def is_exit(self, node, code=None, states=None):
+        if states is not None or any(n == node and c is None for n, c in self.exits):
+            if not any(n == node for n, _ in self.exits):
+                return False
+            cs = self.exit_codes(node, states)
+            return code is None or cs == {code}
+        return self._is_exit_const(node, code)
+
+    def _is_exit_const(self, node, code=None):
         for n, c in self.exits:
             if n == node and (code is None or c == code):
                 return True
@@ -189,8 +226,30 @@ class CliView:
             for f in self._states().get(start[1], []):
                 sts.append((start[1], f))
         if not sts:
-            return set()
-        return set(ps.explore(sts, removed_nodes, removed_edges).keys())
+            return _Reach({})
+        return _Reach(ps.explore(sts, removed_nodes, removed_edges))
+
+    def fail_reach(self, node, removed_nodes=()):
+        """Everything reachable after the (opaque) call at `node` has returned `Err`: the call's result is
+        forced to the Err variant and exploration continues variant-aware from there. If the result is
+        never looked at, this simply follows the normal continuation (and so reaches whatever comes next)."""
+        ps = self.ps
+        sts = []
+        old_assume = ps.assume.get(node)
+        ps.assume[node] = (("var", 1), None)
+        try:
+            for f in self._states().get(node, []):
+                for lab, m, f2 in ps.step(node, f):
+                    if lab in ("call", "maycall") or m in removed_nodes:
+                        continue
+                    sts.append((m, f2))
+            res = ps.explore(sts, removed_nodes) if sts else {}
+        finally:
+            if old_assume is None:
+                ps.assume.pop(node, None)
+            else:
+                ps.assume[node] = old_assume
+        return _Reach(res)
 
     def reach_after(self, node, removed_nodes=(), removed_edges=()):
         """Nodes reachable after the call at `node` returned normally."""
@@ -217,8 +276,8 @@ class CliView:
         tnode = (node[0], tgt)
         sts = [(tnode, f) for f in self._states().get(tnode, [])]
         if not sts:
-            return set()
-        return set(ps.explore(sts, removed_nodes, removed_edges).keys())
+            return _Reach({})
+        return _Reach(ps.explore(sts, removed_nodes, removed_edges))
 
     def ends(self, reachset):
         """Nodes where a path ends: diverging calls (exit, panics) and the root's return; compiler-proved
